@@ -74,7 +74,11 @@ func Schema(s *types.Schema, errs *[]error) parse.Func {
 						parse.Exact(")")),
 					parse.SeqWS(
 						SQLName(&col).
-							Action(func() { s.Columns = append(s.Columns, types.SchemaColumn{Name: col}) }),
+							Action(func() {
+								// a column without a type must not inherit the previous column's
+								coltype = ""
+								s.Columns = append(s.Columns, types.SchemaColumn{Name: col})
+							}),
 						parse.Optional(ColumnType(&coltype)).Action(func() {
 							s.Columns[len(s.Columns)-1].DefaultType =
 								strings.ToLower(coltype)
